@@ -47,6 +47,7 @@ type netParams struct {
 	Collide      bool        `json:"collide,omitempty"`       // fetch: two refspecs send a branch and a same-named tag (on another commit) to one destination
 	OtherTrack   bool        `json:"other_track,omitempty"`   // push: the local repository has remote-tracking refs of another remote below the pushed commits
 	FFConf       string      `json:"ff_conf,omitempty"`       // merge/pull: merge.fastForward in the configuration ("never" | "only"); FF "ff" is the flag that overrides it
+	DotName      bool        `json:"dot_name,omitempty"`      // the first branch is called v1.0 (a name fetch and push accept, commit and branch do not)
 	PreMid       int         `json:"pre_mid,omitempty"`       // Pre: the earlier position of the branch (0 = pick a random ancestor)
 	Pre          string      `json:"pre,omitempty"`           // fetch: "shallow-fetch" = an earlier `fetch --depth 1` of an ancestor of the branch left shallow commits behind
 	ShallowLocal int         `json:"shallow_local,omitempty"` // push: this many non-tip commits of the pushed history lack their table locally (a shallow clone)
@@ -174,6 +175,9 @@ func buildNet(c *fw.Case, env *fw.Env, p *netParams, rng *rand.Rand) (*netWorld,
 	}
 	for b := 0; b < p.Branches; b++ {
 		pl := branchPlan{Name: fmt.Sprintf("b%d", b), Relation: netRelations[rng.Intn(len(netRelations))], Remote: rng.Intn(p.N), Local: -1}
+		if b == 0 && p.DotName {
+			pl.Name = "v1.0"
+		}
 		if b == 0 && p.Rel != "" {
 			pl.Relation = p.Rel
 			// look for a commit that admits the relation
@@ -280,6 +284,9 @@ func buildNet(c *fw.Case, env *fw.Env, p *netParams, rng *rand.Rand) (*netWorld,
 	}
 	for _, pl := range w.plans {
 		sname, rname := sendPrefix+pl.Name, recvPrefix+pl.Name
+		if recvPrefix == "remotes/origin/" {
+			rname = recvPrefix + trackName(pl.Name)
+		}
 		if strings.HasPrefix(pl.Name, "tag:") {
 			sname, rname = "tags/"+pl.Name[4:], "tags/"+pl.Name[4:]
 		}
@@ -518,7 +525,11 @@ func netArgs(w *netWorld, p *netParams) []string {
 		return args
 	case "pull":
 		pl := w.plans[0]
-		args := []string{"pull", pl.Name, "origin", "refs/heads/" + pl.Name + ":refs/remotes/origin/" + pl.Name, "--no-progress", "--no-gui", "-n", "4"}
+		plus := ""
+		if p.Force == "refspec" {
+			plus = "+" // the tracking ref may be reset; the local branch is still merged into
+		}
+		args := []string{"pull", pl.Name, "origin", plus + "refs/heads/" + pl.Name + ":refs/remotes/origin/" + trackName(pl.Name), "--no-progress", "--no-gui", "-n", "4"}
 		if p.FF != "" {
 			args = append(args, "--"+p.FF)
 		}
@@ -604,3 +615,6 @@ func setupRemoteConfig(w *netWorld, p *netParams) error {
 var _ = bytes.Equal
 var _ = errors.Is
 var _ = io.EOF
+
+// trackName is the name a branch is tracked under locally: a dot is not allowed in the names wrgl resolves.
+func trackName(branch string) string { return strings.ReplaceAll(branch, ".", "-") }
